@@ -28,8 +28,20 @@ def gen_cons(rng, ndim, box=None, push_out=0.0):
     kinds = ["ident", "pin", "clamp", "grid"]
     if box is None or (len(set(box[0])) == 1 and len(set(box[1])) == 1):
         kinds.append("tie")
+    if ndim >= 2 and (box is None or all(v not in (INF, -INF) for v in box[0] + box[1])):
+        kinds += ["affine", "affine"]
     k = rng.choice(kinds)
     inplace = rng.random() < 0.4
+    if k == "affine":
+        i, j = rng.sample(range(ndim), 2)
+        if box is None:
+            return dict(kind=k, i=i, j=j, a=rng.choice([0.5, -0.5, 1.0, 2.0]), b=rng.choice([0.0, 1.0, -0.25]), inplace=inplace)
+        if box[1][i] == box[0][i]:
+            return dict(kind="ident", inplace=inplace)
+        # maps the box into itself: x[i] in [lo_i, hi_i]  ->  x[j] in the lower half of [lo_j, hi_j]; a trial with x[i] beyond its range
+        # gives an x[j] that is no longer tied once x[i] is clipped back (and_ has to cycle)
+        a = 0.5 * (box[1][j] - box[0][j]) / (box[1][i] - box[0][i])
+        return dict(kind=k, i=i, j=j, a=a, b=box[0][j] - a * box[0][i], inplace=inplace)
     if k == "pin":
         i = rng.randrange(ndim)
         c = grid(rng, -1, 1) if box is None else box[0][i] + (box[1][i] - box[0][i]) * rng.choice([0, 0.5, 1])
@@ -93,7 +105,7 @@ def open_sides(rng, box):
 
 
 def gen_script(rng, solvers=L.SOLVERS, nops=(3, 9), p_mid=0.5, allow_modes=False, allow_vector=False,
-               constraints=True, limits=True, monitors=True, push_out=0.0):
+               constraints=True, limits=True, monitors=True, push_out=0.0, det_modes=False):
     kind = rng.choice(list(solvers))
     ndim = rng.choice([1, 2, 2, 3])
     npop = rng.choice([4, 5, 6]) if kind in ("DE", "DE2") else 1
@@ -120,7 +132,8 @@ def gen_script(rng, solvers=L.SOLVERS, nops=(3, 9), p_mid=0.5, allow_modes=False
     if box and rng.random() < 0.7:
         o = dict(op="SetStrictRanges", lo=sbox[0], hi=sbox[1])
         if allow_modes and rng.random() < 0.5:
-            o["tight"], o["clip"] = rng.choice([(True, None), (None, True), (True, True), (None, False), (True, False), (False, None)])
+            o["tight"], o["clip"] = rng.choice([(True, None), (None, True), (True, True), (False, None)] if det_modes else
+                                               [(True, None), (None, True), (True, True), (None, False), (True, False), (False, None)])
             if any(v in (INF, -INF) for v in sbox[0] + sbox[1]):
                 o["tight"], o["clip"] = None, None
         cfg.append(o)
@@ -197,4 +210,37 @@ def gen_script(rng, solvers=L.SOLVERS, nops=(3, 9), p_mid=0.5, allow_modes=False
                 case["de_kw"] = True
                 break
     case["ops"] = ops
+    return case
+
+
+def gen_tight_affine(rng):
+    """C03: strict ranges imposed together with the constraints (tight / clip modes, `constraints.and_` of both), an affine tie that maps the
+    box into itself, and an objective that pulls the tie's leading coordinate beyond its bound: trial points leave the box, the bounds
+    function moves the leader back, and the tie has to be re-imposed (and_ cycles) before the point is evaluated"""
+    kind = rng.choice(["DE", "DE", "DE2", "NM", "POW", "POW"])
+    ndim = rng.choice([2, 3])
+    npop = rng.choice([4, 6]) if kind in ("DE", "DE2") else 1
+    lo = [grid(rng, -2, 0) for _ in range(ndim)]
+    hi = [l + rng.choice([1.0, 2.0, 4.0]) for l in lo]
+    i, j = rng.sample(range(ndim), 2)
+    a = 0.5 * (hi[j] - lo[j]) / (hi[i] - lo[i])
+    cons = dict(kind="affine", i=i, j=j, a=a, b=lo[j] - a * lo[i], inplace=rng.random() < 0.3)
+    centre = [grid(rng, -1, 1) for _ in range(ndim)]
+    centre[i] = hi[i] + rng.choice([1.0, 2.0, 3.0]) if rng.random() < 0.7 else lo[i] - rng.choice([1.0, 2.0])
+    tight, clip = rng.choice([(True, None), (None, True), (True, True)])
+    strategies = [s_ for s_ in L.STRATEGIES if max(npop, 4) >= (6 if s_.startswith("Rand2") else 5 if s_.startswith("Best2") else 4)]
+    case = dict(solver=kind, ndim=ndim, npop=npop, seed=rng.randrange(10 ** 6), strategy=rng.choice(strategies), cross=rng.choice([0.9, 0.5, 1.0]),
+                scale=rng.choice([0.8, 1.0]))
+    cfg = [dict(op="SetObjective", cost=dict(kind="quad", a=centre)),
+           dict(op="SetStrictRanges", lo=lo, hi=hi, tight=tight, clip=clip),
+           dict(op="SetConstraints", cons=cons),
+           dict(op="SetTermination", term=dict(kind="never")),
+           dict(op="SetLimits", g=rng.choice([6, 10]), e=None, new=False)]
+    if kind in ("DE", "DE2"):
+        cfg.append(dict(op="SetRandomInitialPoints", lo=lo, hi=hi))
+    else:
+        cfg.append(dict(op="SetInitialPoints", x0=[l + 0.25 * (h - l) for l, h in zip(lo, hi)]))
+    rng.shuffle(cfg)
+    case["ops"] = cfg + [dict(op="Step", cb=False) for _ in range(rng.randint(5, 8) if kind == "POW" else rng.randint(3, 6))] + \
+                  ([dict(op="Solve", cb=False)] if rng.random() < 0.3 else [])
     return case
